@@ -407,6 +407,11 @@ def check_exchange(S, rec, rng):
     # history inside one request: a second start_response() without exc_info (a mounted sub-application answering again)
     # is refused; the application catches that and goes on with the answer it announced first
     second_start = plan == "normal" and not respond_first and rng.random() < 0.12
+    # the application edits the environ it was handed before it answers (a method-override step that lets the GET handler
+    # answer HEAD, or takes the method from a form field): the framing of the response still follows the request line
+    override_method = plan == "normal" and rng.random() < (0.5 if method == "HEAD" else 0.08)
+    if override_method:
+        rec.observe("applications_rewriting_their_request_method")
     if close_raises:
         rec.observe("iterables_whose_close_raises")
     if second_start:
@@ -417,6 +422,8 @@ def check_exchange(S, rec, rng):
 
     def app(environ, start_response):
         seen["env"] = dict(environ)
+        if override_method:
+            environ["REQUEST_METHOD"] = "GET" if environ["REQUEST_METHOD"] == "HEAD" else "POST"
         try:
             return app_body(environ, start_response)
         except (ZeroDivisionError, FileNotFoundError, PermissionError, KeyError):
@@ -567,7 +574,7 @@ def check_exchange(S, rec, rng):
     payload = b"".join(chunks)
     if use_chunked or payload:
         rec.nontrivial(hash((raw, status, with_cl, tuple(chunks), use_write, version, tuple(pattern))) & 0xFFFFFFFFFFFFFFFF)
-    case = {"part": "exchange", "request": raw, "read_pattern": pattern, "status": status, "with_content_length": with_cl, "chunks": chunks, "write_callable": use_write, "version": version, "respond_before_reading": respond_first, "close_raises": close_raises, "second_start_response": second_start}
+    case = {"part": "exchange", "request": raw, "read_pattern": pattern, "status": status, "with_content_length": with_cl, "chunks": chunks, "write_callable": use_write, "version": version, "respond_before_reading": respond_first, "close_raises": close_raises, "second_start_response": second_start, "application_rewrites_method": override_method}
     try:
         if reuse_headers:
             drive(S, raw, app, version)  # history: this is the application's second request, served like the first
